@@ -114,6 +114,7 @@ const digitCls = "0123456789"
 var classes = map[string]string{
 	"@sym":   symChars,
 	"@lower": lowerCls,
+	"@lowernk": "abcdefghijklmnpqrsuvwxyz", // first byte of a two-letter word: no o, t (or / to are keywords)
 	"@digit": digitCls,
 	"@wc":    "*?",
 	"@escd":  " :*\\(\"-",
@@ -124,7 +125,7 @@ var classes = map[string]string{
 var narrowShapes = []shape{
 	{"sym", []string{"@sym"}},
 	{"AND", []string{"AND"}}, {"OR", []string{"OR"}}, {"NOT", []string{"NOT"}}, {"TO", []string{"TO"}},
-	{"plain1", []string{"@lower"}}, {"plain2", []string{"@lower", "@lower"}},
+	{"plain1", []string{"@lower"}}, {"plain2", []string{"@lowernk", "@lower"}},
 	{"int1", []string{"@digit"}}, {"int2", []string{"@digit", "@digit"}}, {"neg", []string{"-", "@digit"}},
 	{"float", []string{"1.5"}},
 	{"wild1", []string{"@wc"}}, {"wild2", []string{"@lower", "@wc"}}, {"wild3", []string{"@wc", "@lower"}},
